@@ -93,6 +93,17 @@ def run(prog, R):
     pbps = sorted({a[1] for vs in lhs_calls.values() for args in vs for a in args if a[0] == "i"})
     R.ob("C05.1-order", "pow>unary", bool(pbps) and "DOUBLE_STAR" in bp and all(x <= bp["DOUBLE_STAR"] for x in pbps), prog.body("oq3_parser::grammar::expressions::lhs").at,
          f"prefix operators parse their operand with minimum binding power {pbps}; `**` has {bp.get('DOUBLE_STAR')}: per the specification `-a ** b` is -(a ** b), which requires the operand to admit `**`")
+    # prefix operators vs every other binary level: `!a + b`, `-a * b`, `~a << 2` apply the operator to `a` alone, so the
+    # operand of each prefix operator is parsed with a minimum binding power above every binary level except `**`
+    allargs = [a for vs in lhs_calls.values() for args in vs for a in args[1:2]] or [a for vs in lhs_calls.values() for args in vs for a in args]
+    nonconst = [a for vs in lhs_calls.values() for args in vs for a in args if a[0] not in ("i",) and a[0] in ("?", "var", "phi")]
+    for lo in levels:
+        if "DOUBLE_STAR" in lo["ops"]:
+            continue
+        b_ = [bp[o] for o in lo["ops"] if o in bp]
+        oku = bool(pbps) and bool(b_) and min(pbps) > max(b_) and not nonconst
+        R.ob("C05.1-order", f"unary>{lo['name']}", oku, prog.body("oq3_parser::grammar::expressions::lhs").at,
+             f"prefix operators parse their operand with minimum binding power {pbps}; level '{lo['name']}' has {dict((o, bp.get(o)) for o in lo['ops'])}: an operand parsed with a lower minimum swallows these operators (`!a + b` becomes !(a + b))")
     # assignment below every binary operator (C04.3 shares this)
     binmin = min(bp[o] for l in levels for o in l["ops"] if o in bp)
     for o in spec["assignment_ops"]:
